@@ -29,6 +29,10 @@ def run(ctx):
     per_case, nkill, njobs = fsfam.kill_runs(ctx, drv, bl)
     fsfam.judge_traces(ctx, per_case, "killstates")
     nread, nreadjobs = fsfam.reader_runs(ctx, drv, bl)
+    # TwoWriters.tla: a second writer process working on the same user while the first is inside its operation - whatever the
+    # interleaving, a final name never shows a torn or mixed record (WholeFiles), checked on real process pairs
+    tw = [o for o in fsfam.two_writers_model(ctx, ctx.tier == "thorough") if o["cut"] not in ("statA", "done")]
+    fsfam.two_writer_runs(ctx, drv, tw, {"torn": "C08", "loser": "C15", "others": "C08", "seq": "C15", "crash": "C08"})
     cov = ctx.coverage
     cov["concurrent_reader_observations"] = nread
     cov["traces_validated_against_impl"] = len(bl) + nkill
